@@ -133,6 +133,57 @@ def recency_of(text):
     return ('recent' if recent else 'oldest', o[1])
 
 
+def _unslice(t):
+    """SLICE(x;lo;hi) of the interpreter's rendering back to x[lo:hi]"""
+    while 'SLICE(' in t:
+        i = t.rindex('SLICE(')
+        depth, j, parts, cur = 0, i + 6, [], ''
+        while j < len(t):
+            ch = t[j]
+            if ch in '([{':
+                depth += 1
+            elif ch in ')]}':
+                if depth == 0:
+                    break
+                depth -= 1
+            if ch == ';' and depth == 0:
+                parts.append(cur)
+                cur = ''
+            else:
+                cur += ch
+            j += 1
+        parts.append(cur)
+        if len(parts) != 3 or j >= len(t):
+            return t
+        t = t[:i] + '%s[%s:%s]' % tuple(parts) + t[j + 1:]
+    return t
+
+
+def simulate_selection(text, me):
+    """Which element of a time-sorted collection an expression selects, decided by evaluating the expression (checker-side,
+    MiniEval) on concrete ascending collections of 1..5 elements: ('recent' | 'oldest' | 'other', base text) or None."""
+    node = _parse(_unslice(text))
+    if node is None:
+        return None
+    verdicts, bases = set(), set()
+    for n_ in (1, 2, 3, 5):
+        fake = _Fake('self', self_signatures=list(range(n_)), _signatures=list(range(100, 100 + n_)))
+        try:
+            v = MiniEval().ev(node, {me: fake})
+        except (_NoEval, _Ret, StopIteration, _Cont):
+            return None
+        if not isinstance(v, int) or isinstance(v, bool):
+            return None
+        base, k = ('%s._signatures' % me, v - 100) if v >= 100 else ('%s.self_signatures' % me, v)
+        bases.add(base)
+        if n_ > 1:
+            verdicts.add('recent' if k == n_ - 1 else 'oldest' if k == 0 else 'other')
+    if len(bases) != 1:
+        return None
+    v = 'other' if len(verdicts) != 1 else verdicts.pop()
+    return v, bases.pop()
+
+
 def _strip(t):
     t = t.strip()
     while t.startswith('(') and t.endswith(')') and keyaction._balanced(t[1:-1]):
@@ -236,6 +287,7 @@ def check_recency(rep, prog):
         rep.check(ok, 'C16.5', 'SorteDeque.insort', 'bisect + rotate insert', 'insertion keeps the deque sorted ascending', where=ins.where, found=mut)
     check_selfsig(rep, prog)
     check_get_key_flags(rep, prog)
+    check_identity_selection(rep, prog)
     check_self_signatures(rep, prog)
     # key_flags reads the hashed KeyFlags subpacket
     kf = prog.method('pgpy.pgp', 'PGPSignature', 'key_flags')
@@ -341,6 +393,8 @@ def check_get_key_flags(rep, prog):
             continue
         r = render(s.ret)
         sel = recency_of(r[:-len('.key_flags')]) if r.endswith('.key_flags') else None
+        if sel is None and r.endswith('.key_flags'):
+            sel = simulate_selection(r[:-len('.key_flags')], me)
         if sel is None:
             every = [b for b, coll in s.bound.items() if re.search(re.escape(b) + r'(?!\.?\d)', r) and
                      order_of(_parse(coll) or ast.Constant(0)) == ('asc', '%s.self_signatures' % me)]
@@ -348,6 +402,12 @@ def check_get_key_flags(rep, prog):
                 # a value computed from EVERY binding signature (union, accumulation) - not the one in effect
                 rep.violation('C16.5', 'PGPKey._get_key_flags', 'subkey: %s' % r,
                               'a subkey\'s capability comes from its MOST RECENT binding signature, not from all of them', where=gk.where,
+                              expected='next(reversed(list(self.self_signatures))).key_flags', found=r)
+                continue
+            if re.match(r'^%s\.\w+(\[[^\]]*\]|\.get\([^)]*\))?$' % re.escape(me), r) and 'signatures' not in r:
+                # flags remembered on the object (a cache): what was in effect when it was filled, not what the signatures say now
+                rep.violation('C16.5', 'PGPKey._get_key_flags', 'subkey: %s' % r,
+                              'a subkey\'s capability comes from its MOST RECENT binding signature, not from remembered state', where=gk.where,
                               expected='next(reversed(list(self.self_signatures))).key_flags', found=r)
                 continue
             raise AnalysisError('PGPKey._get_key_flags subkey arm: unrecognised selection %s' % r)
@@ -412,6 +472,282 @@ def check_self_signatures(rep, prog):
         rep.check(ok, 'C16.5', 'PGPKey.self_signatures', 'filters',
                   'self-signatures are those of the right type issued by the owning primary and not expired', where=sf.where,
                   expected=[str(w) for w in want], found=found, scenario=scen)
+
+
+# ------------------------------------------------------------------------------------------------ identity selection (get_uid)
+class _NoEval(Exception):
+    pass
+
+
+class _Ret(Exception):
+    def __init__(self, v):
+        self.v = v
+
+
+class _Fake(object):
+    """A checker-side stand-in for an object of the analysed program: just a table of attribute values."""
+    def __init__(self, label, **attrs):
+        self.label, self.attrs = label, attrs
+
+    def __repr__(self):
+        return '<%s>' % self.label
+
+
+class MiniEval(object):
+    """Checker-side evaluation of a small selection function on concrete strings (nothing of the repository runs): the
+    statements if / for / return / assignment / expression, and expressions over str, tuple, list, set, None, bool and _Fake
+    objects with comparisons, boolean operators, comprehensions, lambda, any / all / next / filter / map / list / tuple / set /
+    len / bool / str / iter / reversed / sorted and the usual str methods.  Anything else raises _NoEval."""
+    STR_METHODS = ('lower', 'upper', 'casefold', 'strip', 'lstrip', 'rstrip', 'startswith', 'endswith', 'find', 'index', 'count', 'split',
+                   'title', 'replace', 'partition', 'rpartition', 'encode', 'format', 'join', 'isspace')
+
+    def __init__(self, budget=20000):
+        self.budget = budget
+
+    def call(self, fn_node, args):
+        env = dict(zip([a.arg for a in fn_node.args.args], args))
+        try:
+            self.block(fn_node.body, env)
+        except _Ret as r:
+            return r.v
+        return None
+
+    def block(self, stmts, env):
+        for st in stmts:
+            self.budget -= 1
+            if self.budget < 0:
+                raise _NoEval('budget')
+            if isinstance(st, ast.Return):
+                raise _Ret(self.ev(st.value, env) if st.value is not None else None)
+            elif isinstance(st, ast.If):
+                self.block(st.body if self.ev(st.test, env) else st.orelse, env)
+            elif isinstance(st, ast.For):
+                broke = False
+                for x in self.ev(st.iter, env):
+                    self.bind(st.target, x, env)
+                    try:
+                        self.block(st.body, env)
+                    except StopIteration:
+                        broke = True
+                        break
+                    except _Cont:
+                        continue
+                if not broke:
+                    self.block(st.orelse, env)
+            elif isinstance(st, ast.Assign) and len(st.targets) == 1:
+                self.bind(st.targets[0], self.ev(st.value, env), env)
+            elif isinstance(st, ast.Expr):
+                if not isinstance(st.value, ast.Constant):
+                    self.ev(st.value, env)
+            elif isinstance(st, ast.Break):
+                raise StopIteration()
+            elif isinstance(st, ast.Continue):
+                raise _Cont()
+            elif isinstance(st, ast.Pass):
+                pass
+            else:
+                raise _NoEval(type(st).__name__)
+
+    def bind(self, target, v, env):
+        if isinstance(target, ast.Name):
+            env[target.id] = v
+        elif isinstance(target, (ast.Tuple, ast.List)):
+            vs = list(v)
+            if len(vs) != len(target.elts):
+                raise _NoEval('unpack')
+            for t, x in zip(target.elts, vs):
+                self.bind(t, x, env)
+        else:
+            raise _NoEval('target')
+
+    def comp(self, node, env, make):
+        out = []
+
+        def rec(i, e):
+            if i == len(node.generators):
+                out.append(make(e))
+                return
+            g = node.generators[i]
+            for x in self.ev(g.iter, e):
+                e2 = dict(e)
+                self.bind(g.target, x, e2)
+                if all(self.ev(c, e2) for c in g.ifs):
+                    rec(i + 1, e2)
+        rec(0, dict(env))
+        return out
+
+    def ev(self, n, env):
+        self.budget -= 1
+        if self.budget < 0:
+            raise _NoEval('budget')
+        if isinstance(n, ast.Constant):
+            return n.value
+        if isinstance(n, ast.Name):
+            if n.id in env:
+                return env[n.id]
+            if n.id in ('True', 'False', 'None'):
+                return {'True': True, 'False': False, 'None': None}[n.id]
+            raise _NoEval('name %s' % n.id)
+        if isinstance(n, (ast.Tuple, ast.List, ast.Set)):
+            vs = [self.ev(e, env) for e in n.elts]
+            return tuple(vs) if isinstance(n, ast.Tuple) else (vs if isinstance(n, ast.List) else set(vs))
+        if isinstance(n, ast.Attribute):
+            o = self.ev(n.value, env)
+            if isinstance(o, _Fake):
+                if n.attr in o.attrs:
+                    return o.attrs[n.attr]
+                raise _NoEval('attribute %s of %r' % (n.attr, o))
+            if isinstance(o, str) and n.attr in self.STR_METHODS:
+                return getattr(o, n.attr)
+            if isinstance(o, list) and n.attr in ('pop', 'index', 'count', 'copy'):
+                return getattr(o, n.attr)
+            raise _NoEval('attribute %s' % n.attr)
+        if isinstance(n, ast.BoolOp):
+            v = None
+            for x in n.values:
+                v = self.ev(x, env)
+                if isinstance(n.op, ast.And) and not v:
+                    return v
+                if isinstance(n.op, ast.Or) and v:
+                    return v
+            return v
+        if isinstance(n, ast.UnaryOp) and isinstance(n.op, ast.Not):
+            return not self.ev(n.operand, env)
+        if isinstance(n, ast.IfExp):
+            return self.ev(n.body if self.ev(n.test, env) else n.orelse, env)
+        if isinstance(n, ast.Compare):
+            left = self.ev(n.left, env)
+            for op, c in zip(n.ops, n.comparators):
+                right = self.ev(c, env)
+                try:
+                    if isinstance(op, ast.In):
+                        r = left in right
+                    elif isinstance(op, ast.NotIn):
+                        r = left not in right
+                    elif isinstance(op, ast.Eq):
+                        r = left == right
+                    elif isinstance(op, ast.NotEq):
+                        r = left != right
+                    elif isinstance(op, ast.Is):
+                        r = left is right
+                    elif isinstance(op, ast.IsNot):
+                        r = left is not right
+                    else:
+                        raise _NoEval('comparison')
+                except TypeError:
+                    raise _NoEval('comparison of %r and %r' % (left, right))
+                if not r:
+                    return False
+                left = right
+            return True
+        if isinstance(n, ast.GeneratorExp):
+            return iter(self.comp(n, env, lambda e: self.ev(n.elt, e)))
+        if isinstance(n, ast.ListComp):
+            return self.comp(n, env, lambda e: self.ev(n.elt, e))
+        if isinstance(n, ast.SetComp):
+            return set(self.comp(n, env, lambda e: self.ev(n.elt, e)))
+        if isinstance(n, ast.Lambda):
+            names = [a.arg for a in n.args.args]
+            return lambda *a: self.ev(n.body, dict(env, **dict(zip(names, a))))
+        if isinstance(n, ast.Subscript) and isinstance(n.slice, ast.Slice):
+            base = self.ev(n.value, env)
+            lo, hi, st_ = [self.ev(x, env) if x is not None else None for x in (n.slice.lower, n.slice.upper, n.slice.step)]
+            try:
+                return base[lo:hi:st_]
+            except TypeError:
+                raise _NoEval('slice')
+        if isinstance(n, ast.UnaryOp) and isinstance(n.op, ast.USub):
+            v = self.ev(n.operand, env)
+            if isinstance(v, int):
+                return -v
+            raise _NoEval('minus')
+        if isinstance(n, ast.Subscript) and not isinstance(n.slice, ast.Slice):
+            try:
+                return self.ev(n.value, env)[self.ev(n.slice, env)]
+            except (IndexError, KeyError, TypeError):
+                raise _NoEval('subscript')
+        if isinstance(n, ast.Call):
+            fn = dotted(n.func)
+            args = [self.ev(a, env) for a in n.args]
+            if n.keywords and not (fn == 'sorted' and all(k.arg == 'reverse' for k in n.keywords)):
+                raise _NoEval('keywords')
+            table = {'any': any, 'all': all, 'list': list, 'tuple': tuple, 'set': set, 'frozenset': frozenset, 'len': len, 'bool': bool, 'str': str,
+                     'iter': iter, 'reversed': lambda x: iter(list(reversed(list(x)))), 'filter': lambda f, x: iter([y for y in x if (f(y) if f is not None else y)]),
+                     'map': lambda f, *xs: iter([f(*t) for t in zip(*xs)]), 'enumerate': lambda x: iter(list(enumerate(x))), 'zip': lambda *xs: iter(list(zip(*xs)))}
+            if fn == 'next' and 1 <= len(args) <= 2:
+                try:
+                    return next(args[0])
+                except StopIteration:
+                    if len(args) == 2:
+                        return args[1]
+                    raise _NoEval('next() on an exhausted iterator')
+                except TypeError:
+                    raise _NoEval('next() of a non-iterator')
+            if fn == 'sorted' and len(args) == 1:
+                rev = [self.ev(k.value, env) for k in n.keywords if k.arg == 'reverse']
+                try:
+                    return sorted(args[0], reverse=bool(rev and rev[0]))
+                except TypeError:
+                    raise _NoEval('sorted')
+            if fn in ('max', 'min') and len(args) == 1:
+                try:
+                    return (max if fn == 'max' else min)(args[0])
+                except (TypeError, ValueError):
+                    raise _NoEval(fn)
+            if fn in table and fn not in env:
+                try:
+                    return table[fn](*args)
+                except TypeError as ex:
+                    raise _NoEval(str(ex))
+            f = self.ev(n.func, env)
+            if callable(f):
+                try:
+                    return f(*args)
+                except (TypeError, ValueError) as ex:
+                    raise _NoEval(str(ex))
+            raise _NoEval('call of %s' % ast.unparse(n.func))
+        raise _NoEval(type(n).__name__)
+
+
+class _Cont(Exception):
+    pass
+
+
+def check_identity_selection(rep, prog):
+    """The identity whose self-signature grants the capability is the one the caller NAMED: PGPKey.get_uid selects by exact match
+    of the string against name / comment / e-mail address.  The selection function is evaluated, checker-side, on concrete
+    strings: a request that is only a prefix, a substring, another case or padded with blanks must select nothing."""
+    K = prog.cls('pgpy.pgp', 'PGPKey')
+    f = K.methods.get('get_uid')
+    if f is None or len(f.params) != 2:
+        raise AnalysisError('PGPKey.get_uid vanished')
+    u1 = _Fake('uid Bob', name='Bob', comment='x', email='bob@b', is_uid=True, is_ua=False)
+    u2 = _Fake('uid Alice', name='Alice Example', comment='', email='a@b', is_uid=True, is_ua=False)
+    ua = _Fake('photo id', name='', comment='', email='', is_uid=False, is_ua=True)
+    uids = [u1, ua, u2]
+    key = _Fake('key', is_primary=True, _uids=uids, userids=[u1, u2], userattributes=[ua])
+    key.attrs['get_uid'] = lambda req_: MiniEval().call(f.node, [key, req_])          # the same function, on the primary
+    probes = [('Alice Example', u2, 'the full name'), ('a@b', u2, 'the e-mail address'), ('Bob', u1, 'the full name'), ('x', u1, 'the comment'),
+              ('Alice', None, 'a prefix of a name'), ('Example', None, 'a suffix of a name'), ('alice example', None, 'a name in another case'),
+              ('Alice Example ', None, 'a name padded with a blank'), ('ob', None, 'a substring of a name'), ('@', None, 'a substring of an address'),
+              ('Carol', None, 'an unknown name')]
+    for req, want, what in probes:
+        try:
+            got = MiniEval().call(f.node, [key, req])
+        except _NoEval as ex:
+            raise AnalysisError('PGPKey.get_uid: selection not evaluable on concrete strings (%s)' % ex)
+        rep.check(got is want, 'C16.5', 'PGPKey.get_uid', 'request %r (%s) selects %r' % (req, what, got),
+                  'the identity used for the capability must be the one the caller named exactly (name, comment or e-mail address): '
+                  'a fuzzy match lets another identity\'s flags authorise the operation', where=f.where, expected=repr(want), found=repr(got),
+                  scenario=req)
+    # a subkey asks its primary
+    sub = _Fake('subkey', is_primary=False, parent=key, _parent=key, _uids=[], userids=[], userattributes=[])
+    try:
+        got = MiniEval().call(f.node, [sub, 'Bob'])
+    except _NoEval as ex:
+        raise AnalysisError('PGPKey.get_uid: subkey arm not evaluable (%s)' % ex)
+    rep.check(got is u1, 'C16.5', 'PGPKey.get_uid', 'subkey: request answered by the primary (%r)' % got,
+              'a subkey resolves the identity on its primary key', where=f.where, expected=repr(u1), found=repr(got))
 
 
 # ------------------------------------------------------------------------------------------------ key-form predicates
